@@ -55,36 +55,62 @@ theorem mulVec_size (A : Mat K) (x : Vec K) : (@Mat.mulVec K _ _ (scOfField F) A
 theorem tmulVec_size (A : Mat K) (x : Vec K) : (@tmulVec K _ _ (scOfField F) A x).size = A.cols := by
   simp [tmulVec, Mat.tmulVecK, vofFn]
 
-/-- `v / sqrt(λ)` element by element (entries past the end stay 0) -/
-theorem scaleCol_eq (n : Nat) (v : Vec K) (lam : K) :
-    toVec F n (@scaleCol K _ (scOfField F) v lam) = fun i => toVec F n v i / F.sqrt lam := by
+/-- a column of `scaled_evecs`: `v / σ` element by element for `σ > 0` (entries past the end stay 0), the zero vector otherwise -/
+theorem scaleCol_eq (n : Nat) (v : Vec K) (σ : K) :
+    toVec F n (@scaleCol K _ (scOfField F) v σ) = fun i => if 0 < σ then toVec F n v i / σ else 0 := by
   funext i
-  simp only [toVec, scaleCol, vdivs, vget, Lin.zero]
-  by_cases h : i.val < v.size
-  · simp [Array.getD, h]
-  · simp [Array.getD, h]
+  simp only [toVec, scaleCol, vdivs, vget, Lin.zero, ScF.lt, ScF.ofInt, Int.cast_zero, decide_eq_true_eq]
+  by_cases hσ : 0 < σ
+  · simp only [hσ, if_true]
+    by_cases h : i.val < v.size
+    · simp [Array.getD, h]
+    · simp [Array.getD, h]
+  · simp only [hσ, if_false]
+    by_cases h : i.val < v.size
+    · simp [Array.getD, h]
+    · simp [Array.getD, h]
+
+/-- `cwiseMax(0)` at exact arithmetic -/
+theorem clamp0_eq (x : K) : @clamp0 K (scOfField F) x = max x 0 := by
+  simp only [clamp0, Lin.zero, ScF.lt, ScF.ofInt, Int.cast_zero, decide_eq_true_eq]
+  by_cases h : x < 0
+  · simp [h, max_eq_right (le_of_lt h)]
+  · simp [h, max_eq_left (not_lt.mp h)]
 
 theorem toVec_congr (n : Nat) (x y : Vec K) (h : ∀ i, i < n → @vget K (scOfField F) x i = @vget K (scOfField F) y i) :
     toVec F n x = toVec F n y := by
   funext i; exact h i.val i.isLt
 
 /-- the computed side in the tall case: column = `A *ᵥ (v / √λ)` -/
-theorem computed_col_tall (A : Mat K) (v : Vec K) (lam : K) :
-    toVec F A.rows (@Mat.mulVec K _ _ (scOfField F) A (@scaleCol K _ (scOfField F) v lam)) =
-      toMatrix F A *ᵥ (fun i => toVec F A.cols v i / F.sqrt lam) := by
+theorem computed_col_tall (A : Mat K) (v : Vec K) (σ : K) (hσ : 0 < σ) :
+    toVec F A.rows (@Mat.mulVec K _ _ (scOfField F) A (@scaleCol K _ (scOfField F) v σ)) =
+      toMatrix F A *ᵥ (fun i => toVec F A.cols v i / σ) := by
   funext i
-  have := mulVec_eq F A (@scaleCol K _ (scOfField F) v lam) i
+  have := mulVec_eq F A (@scaleCol K _ (scOfField F) v σ) i
   rw [scaleCol_eq] at this
+  simp only [hσ, if_true] at this
   exact this
 
 /-- the computed side in the wide case: column = `Aᵀ *ᵥ (u / √λ)` -/
-theorem computed_col_wide (A : Mat K) (u : Vec K) (lam : K) :
-    toVec F A.cols (@tmulVec K _ _ (scOfField F) A (@scaleCol K _ (scOfField F) u lam)) =
-      (toMatrix F A)ᵀ *ᵥ (fun i => toVec F A.rows u i / F.sqrt lam) := by
+theorem computed_col_wide (A : Mat K) (u : Vec K) (σ : K) (hσ : 0 < σ) :
+    toVec F A.cols (@tmulVec K _ _ (scOfField F) A (@scaleCol K _ (scOfField F) u σ)) =
+      (toMatrix F A)ᵀ *ᵥ (fun i => toVec F A.rows u i / σ) := by
   funext j
-  have := tmulVec_eq F A (@scaleCol K _ (scOfField F) u lam) j
+  have := tmulVec_eq F A (@scaleCol K _ (scOfField F) u σ) j
   rw [scaleCol_eq] at this
+  simp only [hσ, if_true] at this
   exact this
+
+/-- the column that belongs to a non-positive (zero) singular value is the zero vector: finite, and documented in the header -/
+theorem computed_col_zero (A : Mat K) (v : Vec K) (σ : K) (hσ : ¬ 0 < σ) :
+    toVec F A.rows (@Mat.mulVec K _ _ (scOfField F) A (@scaleCol K _ (scOfField F) v σ)) = 0 := by
+  funext i
+  have := mulVec_eq F A (@scaleCol K _ (scOfField F) v σ) i
+  rw [scaleCol_eq] at this
+  simp only [hσ, if_false] at this
+  rw [show toVec F A.rows (@Mat.mulVec K _ _ (scOfField F) A (@scaleCol K _ (scOfField F) v σ)) i =
+        @vget K (scOfField F) (@Mat.mulVec K _ _ (scOfField F) A (@scaleCol K _ (scOfField F) v σ)) i.val from rfl, this]
+  simp [Matrix.mulVec, dotProduct]
 
 /-- `SVDTallMatOp::perform_op` computes `(AᵀA) x` -/
 theorem tallPerformOp_eq (A : Mat K) (x : Vec K) :
